@@ -14,6 +14,7 @@ from vf import oracle as O, snapshot as S
 from vf.checks.common import Case, call, exc_text
 
 ID = "C16"
+TECHNIQUE = "runtime monitoring: factory calls compared with closed forms; exception-type monitor for invalid parameters"
 LEVEL = "exploration"
 RULE = ("seeded stream of parameter tuples for Primitive.square/triangle/regular_polygon/polygon/circle: sizes "
         "1e-3..1e4 as int/Fraction/float/numpy scalars, centres as tuple/list/Point2D of every numeric kind, nsides 3..40, "
